@@ -1821,3 +1821,12 @@ Proof.
   intros Ho Hk. destruct (own_in_roster _ _ _ Ho) as [Hr _].
   destruct (answer_kills_unrostered _ _ Hk) as [Hn _]. congruence.
 Qed.
+
+(* C18: ... nor by a mere reconnection with all its reconciliation answers processed *)
+Lemma owned_never_killed_by_reconnect w t e :
+  Own w t e -> ~ In (CKill t) (snd (hstep w OReconnect)).
+Proof.
+  intros Ho Hk. destruct (own_in_roster _ _ _ Ho) as [Hr _].
+  pose proof (reconnect_untouched w) as H. cbv zeta in H. destruct H as (_ & _ & _ & H4).
+  specialize (H4 t Hk). congruence.
+Qed.
